@@ -130,7 +130,7 @@ func main() {
 			bad("round trip of %q through %q: %v %v", u, p.String(), q, err)
 		}
 	}
-	for _, u := range []string{"stun:h:65536", "stun:h:99999999999999999999", "stun:h:-1", "http://h", "stun:[::1"} {
+	for _, u := range []string{"stun:h:65536", "stun:h:99999999999999999999", "stun:h:-1", "stun:h:4294967376", "stuns:[2001:db8::1]:4294972645", "turn:h:4294967296", "stun:h:2147483648", "stun:h:8589934592", "http://h", "stun:[::1"} {
 		if _, err := stun.ParseURI(u); err == nil {
 			bad("ParseURI(%q) accepted", u)
 		}
